@@ -13,6 +13,14 @@ import ast
 from common import *
 import py2gal
 from py2gal import Unsupported
+import failclosed
+
+# the two functions: one undecorated definition each, bound to its name at run time (the defaults of split_path are emitted)
+_A = failclosed.ANY
+FAILCLOSED = {'generate_split_path': [{'src': 'oslo_utils/strutils.py', 'mod': 'oslo_utils.strutils',
+                                       'functions': {'split_path': {'defaults': {'minsegs': _A, 'maxsegs': _A, 'rest_with_last': _A}}}}],
+              'generate_grammar': [{'src': 'oslo_utils/strutils.py', 'mod': 'oslo_utils.strutils',
+                                    'functions': {'split_by_commas': {'defaults': {}}}}]}
 
 COQ_TY = dict(py2gal.COQ_TY, optstrlist='list (option bytes)')
 
@@ -156,6 +164,7 @@ def _const_default(d):
 
 
 def generate_split_path():
+    failclosed.check_all(FAILCLOSED['generate_split_path'])
     tree = repo_ast('oslo_utils/strutils.py')
     f = find_def(tree, 'split_path')
     params = [('path', 'bytes'), ('minsegs', 'int'), ('maxsegs', 'optint'), ('rest_with_last', 'bool')]
@@ -204,6 +213,7 @@ def _str_const(n, what, length=None):
 
 def generate_grammar():
     import inspect
+    failclosed.check_all(FAILCLOSED['generate_grammar'])
     tree = repo_ast('oslo_utils/strutils.py')
     f = find_def(tree, 'split_by_commas')
     if [x.arg for x in f.args.args] != ['value']: raise GenError('split_by_commas: signature changed')
